@@ -166,6 +166,7 @@ func runCrash(r *run) error {
 					mu.Lock()
 					defer mu.Unlock()
 					r.count(fmt.Sprintf("%s/%s/%s", kind, arr, res.Outcome))
+					r.emit("noop", sp.ID, []string{kind, fmt.Sprint(off)}, "ok", true)
 					detail := map[string]any{"arrangement": arr, "kind": kind, "offset": off, "total_to_receiver": total, "err": res.Err,
 						"regenerate": fmt.Sprintf("VERIF_SEED=%d ./check C04 (session %s)", r.seed, sp.ID)}
 					switch kind {
